@@ -169,17 +169,30 @@ def in_rejection_guard(node):
 
 
 def guard_not_triggered(node):
-    """Truth value for one symbolic comparison so that the enclosing rejection guard is not taken
-    (only for tests that are a single comparison or an `or` of comparisons)."""
+    """Truth value for one symbolic comparison so that the enclosing rejection guard is not taken.
+    The required value is propagated from the test's root (must be False) through not/and/or;
+    ambiguous positions (an `or` that must be true, an `and` that must be false) give None."""
     g = in_rejection_guard(node)
     if g is None:
         return None
-    t = g.test
-    if t is node:
-        return False
-    if isinstance(t, ast.BoolOp) and isinstance(t.op, ast.Or) and node in t.values:
-        return False
-    return None
+
+    def want(t, value):
+        if t is node:
+            return value
+        if isinstance(t, ast.UnaryOp) and isinstance(t.op, ast.Not):
+            return want(t.operand, not value)
+        if isinstance(t, ast.BoolOp):
+            forced = (isinstance(t.op, ast.Or) and value is False) or (isinstance(t.op, ast.And) and value is True)
+            for v in t.values:
+                if _contains_node(v, node):
+                    return want(v, value) if forced else None
+        return None
+
+    return want(g.test, False)
+
+
+def _contains_node(tree, node):
+    return any(n is node for n in ast.walk(tree))
 
 
 def make_compare(assume_valid_kin=True):
